@@ -22,7 +22,7 @@ def cases(chk):
         yield c["source"], c["n_init"], "corpus"
     n = 220 if chk.tier == "thorough" else 28
     for _ in range(n):
-        prog = R.gen_program(chk.rng, chk.rng.randint(3, 6))
+        prog = R.gen_program(chk.rng, chk.rng.randint(3, 6), codeblocks=chk.rng.random() < 0.2)
         body = list(prog.body)
         x = chk.rng.random()
         origin = "gen"
@@ -107,7 +107,8 @@ def classify(res):
 
 def run(chk):
     chk.cov["rule"] = ("every consecutive-statement region of the body of seeded MiniF routines (as C12), 30% of the "
-                       "routines with an excluded node type (CodeBlock / Return) at the top level, some regions retried "
+                       "routines with an excluded node type (print CodeBlock / Return) at the top level, 20% with expression / "
+                       "FORALL CodeBlocks, DO WHILE loops (8% of statements), some regions retried "
                        "with an `enter data` directive in the routine, one empty region; non-trivial = accepted region "
                        "touching >=2 arrays, or a refusal; distinct by (source, region, enter_data)")
     chk.assumptions += [
@@ -123,11 +124,12 @@ def run(chk):
                                "MiniF semantics + PSyIR->MiniF exporter (harness/minif.py)",
                                "operational model of OpenACC data clauses RegionData.execACC",
                                "correspondence harness harness/props/c13.py, c12_region.py"]
+    from psyclone.psyir.nodes import WhileLoop
     t0 = time.time()
     chk.lean()
     chk.cov["lean_build_audit_s"] = round(time.time() - t0, 1)
     dist = {"regions": 0, "programs": 0, "accepted": 0, "refused": 0, "model_agrees": 0, "FullyWrittenOrRead": 0,
-            "CopyoutNotRead": 0, "executed": 0, "failing_known": 0, "skipped_unsupported": 0}
+            "CopyoutNotRead": 0, "executed": 0, "failing_known": 0, "skipped_unsupported": 0, "regions_with_while": 0}
     todo, lines = [], []
     first = True
     for src, n_init, origin in cases(chk):
@@ -166,6 +168,7 @@ def run(chk):
         dist["FullyWrittenOrRead"] += bool(res["fwor"])
         dist["CopyoutNotRead"] += bool(res["cnr"])
         dist["executed"] += ctx["nexec"] > 0
+        dist["regions_with_while"] += any(n.walk(WhileLoop) for n in ctx["parsed"].region_nodes(ctx["i"], ctx["j"]))
         nontriv = not isinstance(res["real"], dict) or len(set(sum(res["real"].values(), []))) >= 2
         chk.case(dict(case, real=res["real"]), nontrivial=nontriv, agreed=agreed)
         if res["fails"]:
